@@ -190,10 +190,12 @@ func (c *connection) onProcess(onConnect OnConnect, onRequest OnRequest) (proces
 				return
 			}
 			// cannot use recover() here, since we don't want to break the panic stack
-			c.unlock(processing)
 			if c.IsActive() {
+				c.unlock(processing)
 				c.Close()
 			} else {
+				// already closed by the peer or the user: keep holding the processing lock while the
+				// callbacks run, otherwise a concurrent Close would run them a second time
 				c.closeCallback(false, false)
 			}
 		}()
